@@ -15,18 +15,20 @@ prop(
 
 prop(
     "C35",
+    ready=True,
     level="other",
     level_text="one real create_* call on a real DcpsDomainParticipant from an abstract history state (an earlier entity with "
                "counter value c0 still alive, the counter now at a symbolic c): no panic and handles pairwise distinct, for "
-               "every c below the counter's maximum; the maximum itself is a recorded finding. Bounded by one live sibling "
+               "every counter value c including the maximum (where creation must fail with OutOfResources and add nothing). Bounded by one live sibling "
                "per kind; the handle is a pure function of (parent handle, counter, kind) so one sibling is the general case.",
     level_note="trusted: Kani/CBMC; listener tasks are never spawned (VSpawner drops them); participant not enabled (enabling "
                "announces through XTypes, outside)",
     explanation="Kani harnesses on DcpsDomainParticipant::create_user_defined_publisher/subscriber, create_topic, "
                 "create_content_filtered_topic, create_data_writer, create_data_reader with symbolic creation counters "
-                "(full u8 / u16 range minus the maximum) and one live earlier entity per kind; asserts no panic (dev profile "
-                "overflow checks) and handle distinctness.",
-    bounds="one live earlier entity per kind; counters symbolic over their full range except the maximum value",
+                "(full u8 / u16 range) and one live earlier entity per kind (invariant: its counter bytes are below the "
+                "current counter); asserts no panic (dev profile overflow checks), handle distinctness, the invariant after the "
+                "step, and that a failing creation is OutOfResources and stores nothing.",
+    bounds="one live earlier entity per kind; counters symbolic over their full range",
     outside="the enabled-entity announcement path (DynamicData); RTPS GUID = same 16 bytes as the handle (by construction in "
             "the code, asserted for writers/readers via the handle only)",
     timeout={"quick": 900, "thorough": 1800},
